@@ -260,6 +260,50 @@ def pairs_block(r, name, d):
     return [("block:transparent-some", a, b), ("block:transparent-all", copy.deepcopy(d), c)]
 
 
+SIB_OPTS = [("F_CFI", True), ("F_force_wrapper", True), ("C_force_wrapper", True), ("debug", True), ("literalinclude", True),
+            ("F_string_len_trim", False), ("F_create_bufferify_function", False), ("wrap_python", False), ("wrap_fortran", False)]
+STEM = re.compile(r"\b(f\d+[a-z0-9]+)")
+
+
+def pairs_sibling(r, name, d, n):
+    """An option set on ONE declaration: everything Shroud emits for the other declarations must not move."""
+    tops = [(i, e) for i, e in enumerate(d.get("declarations") or []) if isinstance(e, dict) and STEM.search(e.get("decl", ""))]
+    stems = {}
+    for i, e in tops:
+        stems.setdefault(STEM.search(e["decl"]).group(1), []).append(i)
+    out = []
+    if len(stems) < 2:
+        return out
+    picks = [(r.choice(sorted(stems)), ) + r.choice(SIB_OPTS) for _ in range(n)]
+    # F_CFI changes the whole calling convention of the declaration that carries it: every declaration that really is
+    # converted (character / string arguments or results) is tried, wherever it stands among its siblings
+    cfi = [st for st in sorted(stems) if any(re.search(r"char|std::string", d["declarations"][i]["decl"]) for i in stems[st])]
+    r.shuffle(cfi)
+    picks += [(st, "F_CFI", True) for st in cfi[:4]]
+    for st, opt, val in picks:
+        b = copy.deepcopy(d)
+        for i in stems[st]:                       # every entry of the chosen name (an overload set is one unit)
+            b["declarations"][i].setdefault("options", {})[opt] = val
+        a = copy.deepcopy(d)
+        info = {"stem": st, "others": sorted(x for x in stems if x != st), "option": opt, "position": min(stems[st])}
+        out.append(("sibling:%s" % opt, a, b, info))
+    return out
+
+
+def sibling_view(rr, info):
+    """What the outputs say about the other declarations: every line that names one of them (and not the changed one),
+    and the body of every splicer block named after one of them."""
+    from .c12 import extract_blocks
+    others, me = [x.lower() for x in info["others"]], info["stem"].lower()
+    view = {}
+    for rel, text in source_outputs(rr).items():
+        low = text.lower()
+        lines = [ln for ln in low.split("\n") if any(o in ln for o in others) and me not in ln]
+        blocks = {n_: b_ for n_, b_ in extract_blocks(text).items() if any(o in n_.lower() for o in others) and me not in n_.lower()}
+        view[rel] = (lines, blocks)
+    return view
+
+
 def main(rec):
     thorough = common.tier() == "thorough"
     r = common.rng("c14")
@@ -282,6 +326,10 @@ def main(rec):
         prs += pairs_block(r, name, d)
         for rel, a, b in prs:
             jobs.append((rel, name, spec_of(name, a), spec_of(name, b)))
+        for rel, a, b, info in pairs_sibling(common.rng("c14sib", name), name, d, (6 if thorough else 3) if name.startswith("gmix") else 1):
+            sa_ = spec_of(name, a)
+            sa_["sib"] = info
+            jobs.append((rel, name, sa_, spec_of(name, b)))
     links = {"input": os.path.join(common.REPO, "regression", "input")}
     for c in corpus.configs():
         text = corpus.yaml_text(c)
@@ -371,6 +419,22 @@ def main(rec):
                               "%s [%s]: variant %s fails: %s: %s %s" % (name, rel, "A" if fa else "B", e.get("type"),
                                                                        e.get("msg", "")[:300], bad.get("exit_msg", "")), case)
                 rec.case(key="%s|%s" % (name, rel), sample={"description": name, "relation": rel, "result": "one variant fails"})
+                continue
+            if a.get("sib"):
+                va, vb = sibling_view(ra, a["sib"]), sibling_view(rb, a["sib"])
+                rec.count("sibling_pairs_compared")
+                rec.count("pairs_compared")
+                rec.case(key="%s|%s|%s" % (name, rel, a["sib"]["stem"]), sample={"description": name, "relation": rel, "changed": a["sib"]["stem"],
+                                                                                "others": a["sib"]["others"][:4]})
+                for fn in sorted(set(va) & set(vb)):
+                    if va[fn] != vb[fn]:
+                        la, lb = va[fn][0], vb[fn][0]
+                        diff = [x for x in la if x not in lb][:4] + ["=>"] + [x for x in lb if x not in la][:4]
+                        blk = [n_ for n_ in set(va[fn][1]) | set(vb[fn][1]) if va[fn][1].get(n_) != vb[fn][1].get(n_)][:4]
+                        rec.violation("%s:sibling-changed:%s" % (rel, file_role(fn)),
+                                      "%s [%s on %s]: what %s says about the other declarations changed\n lines: %r\n blocks: %r" % (
+                                          name, a["sib"]["option"], a["sib"]["stem"], fn, diff, blk), case)
+                        break
                 continue
             sa, sb = source_outputs(ra), source_outputs(rb)
             rec.count("pairs_compared")
